@@ -32,7 +32,8 @@ func specWordCode(b byte) bool {
 //@   callsite newToken requires[C11,C12] line-comment-stops-at-the-line-break: arg1 == COMMENT && hasPrefix(rest(), "//") ==> (strings.Index(rest(), "\n") < 0 ==> arg0 == rest()[2:]) && (strings.Index(rest(), "\n") >= 0 ==> arg0 == rest()[2:strings.Index(rest(), "\n")])
 //@   callsite newToken requires[C11,C12] a-minus-after-an-operand-is-the-operator-not-a-sign: arg1 == NUMBER_LITERAL && hasPrefix(arg0, "-") ==> !endsOperand(tokens)
 //@   callsite newToken requires[C11] true-and-false-are-whole-words: arg1 == BOOL_LITERAL ==> (arg0 == "true" || arg0 == "false") && hasPrefix(rest(), arg0) && (len(arg0) == len(rest()) || !specWordCode(rest()[len(arg0)]))
-//@   callsite newToken requires[C11] a-word-is-the-text-at-its-position: arg0 == identifier && len(identifier) >= 1 && hasPrefix(rest(), identifier)
+//@   callsite newToken requires[C11] a-word-is-the-text-at-its-position: arg0 == identifier && ogI + len(identifier) <= len(src()) && identifier == src()[ogI:ogI+len(identifier)]
+//@   callsite newToken requires[C11] a-word-is-not-empty: len(identifier) >= 1
 //@   callsite newToken requires[C11] a-word-starts-with-a-letter-or-underscore: len(identifier) >= 0 && len(rest()) >= 1 && specWordCode(rest()[0]) && !(rest()[0] >= 48 && rest()[0] <= 57)
 //@   callsite newToken requires[C11] words-are-maximal: ogI + len(identifier) == len(src()) || !specWordCode(src()[ogI+len(identifier)])
 //@   callsite newToken requires[C11] a-reserved-word-gets-its-own-type-any-other-word-is-an-identifier: (specKeywordType(identifier) != UNKNOWN ==> arg1 == specKeywordType(identifier)) && (specKeywordType(identifier) == UNKNOWN ==> arg1 == IDENTIFIER)
@@ -40,9 +41,13 @@ func specWordCode(b byte) bool {
 //@   loop @"for i < sourceLength#1" invariant[C11,C12,C13] index-within-normalised-source: 0 <= i && i <= len(strings.ReplaceAll(source, "\r\n", "\n"))
 //@   loop @"for i < sourceLength#1" invariant[C11,C12] no-blank-or-comment-token: forall(k, 0, len(tokens), tokens[k].tokenType != SPACE && tokens[k].tokenType != COMMENT && tokens[k].tokenType != UNKNOWN)
 //@   loop @"for i < sourceLength#1" invariant[C11] rows-start-at-one: row >= 1
+//@   loop @"for i < sourceLength#1" invariant[C11] row-and-column-are-those-of-the-next-character: row == 1 + strings.Count(src()[:i], "\n") && column == i - strings.LastIndex(src()[:i], "\n")
+//@   callsite newToken requires[C11] a-token-carries-the-row-and-column-of-its-first-character: arg2 == 1 + strings.Count(src()[:ogI], "\n") && arg3 == ogI - strings.LastIndex(src()[:ogI], "\n")
+//@   ensures[C11] the-end-token-carries-the-position-after-the-last-character: err == nil ==> result0[len(result0) - 1].row == 1 + strings.Count(src(), "\n") && result0[len(result0) - 1].column == len(src()) - strings.LastIndex(src(), "\n")
 //@   loop @"for i < sourceLength#1" invariant[C11] the-tables-are-the-grammar: forall(k, 0, len(nonAlphabeticTokens), specSymbolType(nonAlphabeticTokens[k].value) != UNKNOWN && nonAlphabeticTokens[k].tokenType == specSymbolType(nonAlphabeticTokens[k].value)) && forallstr(s, has(keywords, s) == (specKeywordType(s) != UNKNOWN) && (has(keywords, s) ==> get(keywords, s) == specKeywordType(s)))
 //@   loop @"for i < sourceLength#1" invariant[C11] identifiers-are-not-reserved-words-and-symbols-are-what-they-spell: forall(k, 0, len(tokens), (tokens[k].tokenType == IDENTIFIER ==> specKeywordType(tokens[k].value) == UNKNOWN) && (specIsSymbolType(tokens[k].tokenType) ==> specSymbolType(tokens[k].value) == tokens[k].tokenType))
 //@   loop @"for i < sourceLength#2" invariant[C11,C13] index-within-normalised-source: 0 <= i && i <= len(strings.ReplaceAll(source, "\r\n", "\n"))
+//@   loop @"for i < sourceLength#2" invariant[C11,C13] the-scanner-only-moves-forward: ogI < i
 //@   loop @"for i < sourceLength#2" exit[C11] scanner-gives-up-only-at-end-of-input: i >= len(strings.ReplaceAll(source, "\r\n", "\n"))
 //@   loop @"for" invariant[C11,C13] index-within-normalised-source: 0 <= i && i <= len(strings.ReplaceAll(source, "\r\n", "\n"))
 //@   ensures[C11,C13] always-ends-with-eof: err == nil ==> len(result0) >= 1 && result0[len(result0) - 1].tokenType == EOF && result0[len(result0) - 1].value == ""
